@@ -41,6 +41,9 @@ type Op struct {
 type In struct {
 	KeySeed uint64 `json:"key_seed"`
 	Ops     []Op   `json:"ops"`
+	// GasToken: the bridge is initialised with a custom gas token (gasTokenAddress != 0): a native bridgeAsset then emits the gas
+	// token's origin network / address / metadata instead of (0, 0x0, empty)
+	GasToken bool `json:"gas_token,omitempty"`
 }
 
 // ---------- generators ----------
@@ -252,7 +255,9 @@ func generate(seed uint64, n int, tier string) []In {
 		if tier == "thorough" {
 			nd = hlib.Pick(r, 1, 2, 3, 8, 17, 33, 64, 65, 140, 5+r.Intn(60))
 		}
-		out = append(out, randomCase(r, nd))
+		c := randomCase(r, nd)
+		c.GasToken = len(out)%2 == 1 // every second random case runs on a chain with a custom gas token
+		out = append(out, c)
 	}
 	return out
 }
